@@ -1,0 +1,22 @@
+//go:build verif
+
+// Contracts for the acv verifier (/verif). Comment-only file: no executable code.
+
+package common
+
+// Translator (C15): a value that fails to decrypt is always shown to the poison detector before the error is returned,
+// and the caller never learns whether it was a poison record.
+//@ func (service *TranslatorService) Decrypt(ctx context.Context, acraStruct []byte, clientID []byte, additionalContext []byte) (out []byte, err error)
+//@   props C02 C15
+//@   noinline *
+//@   ensures failed-decrypt-checked-for-poison: called(RegistryHandler.DecryptWithHandler) && ret(RegistryHandler.DecryptWithHandler)[1] != nil ==> called(EnvelopeDetector.OnColumn) && err == ErrCantDecrypt && out == nil
+//@   ensures success-not-checked: called(RegistryHandler.DecryptWithHandler) && ret(RegistryHandler.DecryptWithHandler)[1] == nil ==> err == nil && sameslice(out, ret(RegistryHandler.DecryptWithHandler)[0])
+//@   at call EnvelopeDetector.OnColumn : assert recv == service.poisonDetector && sameslice(arg[1], acraStruct)
+//@   at call base.WithClientID : assert sameslice(arg[0], clientID)
+//@   at call RegistryHandler.DecryptWithHandler : assert sameslice(arg[1], acraStruct) && arg[2].Keystore == service.data.Keystorage
+
+//@ func NewTranslatorService(translatorData *TranslatorData) (svc *TranslatorService, err error)
+//@   props C15
+//@   noinline *
+//@   ensures detector-armed: err == nil && translatorData.PoisonRecordCallbacks != nil && ret(PoisonRecordCallbackStorage.HasCallbacks)[0] ==> called(EnvelopeDetector.AddCallback)
+//@   at call EnvelopeDetector.AddCallback : assert typeis(arg[0], crypto.PoisonRecordDetector) && recv == ret(crypto.NewEnvelopeDetector)[0]
